@@ -186,7 +186,7 @@ def run(ctx):
                                    "Ticks": "{300, 1003, 1008, 1511, 2013, 2310, 712, 5, 4028}"}),
            timeout=ctx.pick(600, 2400))
     jp = ctx.gen_paths("loop", "Gen_PeriodicJitter", "Gen_PeriodicJitter.cfg",
-                       overrides=ctx.pick({}, {"L": 6, "Kinds": '{"sync", "coro", "cororaise"}'}))
+                       overrides=ctx.pick({}, {"L": 6, "JF": "{6, 9}"}))
     ctx.replay(jp, periodic_replayer, label="s2c-periodic-jitter",
                nontrivial=lambda e, p: any(s["act"] == "tick" for s in p) and len(p[-1]["exp"]["sched"]) >= 2)
     nj = ctx.pick(150, 2000)
